@@ -134,7 +134,12 @@ def replay_case(ck, replay, binname, keys):
     x = det.get(keys[0]) or "-"
     y = det.get(keys[1]) or "-"
     d = vlib.cargo_build(CRATE, "h_unixstr-debug", bins=BINS)
-    r = vlib.run_one([os.path.join(d, binname), "case", str(ck.seed), "0", x, y], timeout=300)
+    m = re.search(r" fmt seed=(\d+)", str(det.get("context", "")))
+    if m:   # format-kind cases are regenerated from their job seed (same rounds as the quick tier)
+        argv = [os.path.join(d, binname), "fmt", m.group(1), "3000"]
+    else:
+        argv = [os.path.join(d, binname), "case", str(ck.seed), "0", x, y]
+    r = vlib.run_one(argv, timeout=300)
     ck.consume_result(r, "replay %s" % os.path.basename(replay))
     for line in r["out"].splitlines():
         if line.startswith("@@VIOL") or line.startswith("@@COUNT refuted"):
@@ -219,6 +224,9 @@ def run(ck, replay=None):
         add(kind, "%s dirent seed=%d" % (prof, seed),
             dict(argv=[exe, "dirent", str(seed * 10 + len(prof)), str(rounds)], timeout=3000))
         add(kind, "%s lits" % prof, dict(argv=[exe, "lits", str(seed), "0"], timeout=600))
+        for i in range(1 if quick else 8):
+            add(kind, "%s fmt seed=%d" % (prof, seed * 100 + i),
+                dict(argv=[exe, "fmt", str(seed * 100 + i), str(3000 if quick else 60000)], timeout=3000))
 
     # ---- Miri: small domain partitioned completely + a hashed sample of the big one
     miri_ok = miri_warm(ck, "c10")
@@ -234,6 +242,8 @@ def run(ck, replay=None):
             add("miri", "miri exh ulen=6 plen=4 sample res=%d mod=%d" % (i, samp_mod),
                 miri_job("c10", ["exh", seed, 0, 6, 4, samp_mod, i], 3000))
         add("miri", "miri rand", miri_job("c10", ["rand", seed, 8 if quick else 40, 120], 3000))
+        for i in range(1 if quick else 6):
+            add("miri", "miri fmt %d" % i, miri_job("c10", ["fmt", seed * 100 + i, 2 if quick else 8], 3000))
         if not quick:
             for i in range(7):
                 add("miri", "miri rand %d" % i, miri_job("c10", ["rand", seed * 100 + i, 30, 300], 3000))
@@ -276,6 +286,10 @@ def run(ck, replay=None):
     ck.assume("from_format / path_join_fmt cannot reject (they return a value): for text that carries a NUL other than "
               "one final NUL only the terminator is demanded (counted in note_*_interior_nul_accepted), as the statement "
               "limits 'no other NUL' to NUL-free inputs")
+    ck.assume("from_format / path_join_fmt are also driven with char, integer, float, bool, Debug, fill/width/precision, nested "
+              "format_args! and piecewise Display arguments; the reference is what std's format! produces for the same arguments "
+              "(+ one NUL; for path_join_fmt the documented boundary rule on NUL-free text). NUL-free formatted text must give "
+              "exactly one NUL, at the end; only text that itself contains a NUL falls under the 'counted' exception")
     ck.assume("from_str_checked is swept over every text of the domain at run time: its documented rejection is a panic, "
               "which is the expected outcome for unrepresentable text and a violation only for representable text; "
               "unix_lit! rejection is probed at build time (engines/h_unixstr/litprobe: bins that must not compile)")
@@ -284,7 +298,7 @@ def run(ck, replay=None):
     ck.assume("Miri and ASan stop at their first report: cases after it in that job are not run (jobs are sharded so that "
               "one report costs one shard)")
     return ("every byte string over {0x00,'/','a',0xFF} up to length %d (unary) and every ordered pair up to length %d "
-            "(binary), the same texts with a 2-byte character in place of 0xFF for the &str constructors, random strings up to 8 KiB with NUL none/end/interior/several, unix_lit! literals, and names of "
+            "(binary), the same texts with a 2-byte character in place of 0xFF for the &str constructors, random strings up to 8 KiB with NUL none/end/interior/several, unix_lit! literals, ~40 format shapes over non-&str argument kinds (chars of every UTF-8 width incl. code points = 0 mod 0x100, numbers with width/fill/radix, nested format_args!, Display impls writing via write_char/write_str/write_fmt, {:?}) compared with std's format!, and names of "
             "1..255 bytes read back from real directories, through try_from_str/bytes/vec/string (both types), FromStr, "
             "from_format, from_str_checked (all texts, panic = expected rejection), From<&UnixStr>, Deref/AsRef, from_ptr, path_join, path_join_fmt, parent_path, "
             "path_file_name, file_unix_name and chains of them (parent of parent, parent joined with file name); every "
